@@ -753,7 +753,20 @@ def r7_scratch(ctx, f, rep):
             continue
         for p in ctx.paths(f, b, 'none'):
             last = None
+            pcalls = {c['id']: c for c in p.calls()}
             for e in p.events:
+                if e['kind'] == 'call' and CB not in e['args'] and e['res'] in (
+                        'member::Members::choose_active_members', 'member::Members::choose_down_members'):
+                    # targets chosen into some other vector: it must be a fresh one (the number of datagrams a round sends is
+                    # bounded by `wanted` only if nothing was in the vector before)
+                    fresh = False
+                    for a, d, ty in zip(e['args'], e.get('derefs') or [], e.get('argtys') or []):
+                        if a[0] == 'ref' and a[2] is True and 'Vec<member::Member' in ty:
+                            fresh = d is not None and d[0] == 'call' and d[1] in pcalls and \
+                                pcalls[d[1]]['res'] in ('alloc::vec::Vec::new', 'alloc::vec::Vec::with_capacity')
+                    nf += 1
+                    rep.check(fresh, 'C07-R7', b.nname, 'members are chosen into the cleared scratch buffer or into a fresh vector '
+                              '(left-overs would be sent to as well)', site=e['span'], construct='fill-into-fresh')
                 if e['kind'] != 'call' or CB not in e['args']:
                     continue
                 nm = e['res']
